@@ -609,6 +609,11 @@ func checkC08(p *Prog, r *Report) {
 	checkModuleExtensionInterfaces(p, r, "C08", []string{"x/aol", "x/did", "x/pnft", "x/burn"})
 	checkJSONDecoders(p, r, "C08")
 
+	for _, mod := range []string{"x/aol", "x/did", "x/pnft", "x/burn"} {
+		checkModuleGenesisGlue(p, r, kp, mod)
+	}
+	checkNoNilVersusEmptyLists(p, r, kp, "x/aol/types", "x/did/types", "x/pnft/types")
+	checkNoUnseparatedCompositeMapKeys(p, r, kp, "x/aol", "x/did", "x/pnft")
 	// ---------------- D5 order independence ----------------
 	for _, mod := range []string{"x/aol", "x/did", "x/pnft", "x/burn"} {
 		e := p.Func(Rel(mod), "ExportGenesis")
@@ -637,24 +642,7 @@ func checkC08(p *Prog, r *Report) {
 		}
 		r.Check(bad == "", kp("ORDER", mod+".ExportGenesis#no-map-iteration"), "exporting the same state twice gives identical bytes: no exporter iterates over a Go map with an order-sensitive body", p.FnPos(e),
 			fmt.Sprintf("%d functions on the export path, none ranges over a map with an order-sensitive body", len(reach.Order)), "map iteration on the export path: "+bad+" (export order would differ between runs/nodes)")
-		// D9: the exported value is built from this call's own containers: nothing on the export path writes memory that outlives
-		// the call (a package-level variable, also through a struct copy that shares its maps; a field of a long-lived struct)
-		var pathFns []*ssa.Function
-		for _, f := range reach.Order {
-			if InModule(f) && f.Blocks != nil {
-				pathFns = append(pathFns, f)
-			}
-		}
-		wr := ""
-		for _, a := range LAccesses(p, pathFns) {
-			if a.Write && !isInitFunc(a.Fn) {
-				wr = a.Loc + " (" + describeAccess(p, a) + ")"
-				break
-			}
-		}
-		r.Check(wr == "", kp("STATE", mod+".ExportGenesis#builds-fresh-containers"), "an export is a function of the stores only: the export path writes no memory that outlives the call (entries of an earlier export, or of another module's, cannot leak into this one)", p.FnPos(e),
-			fmt.Sprintf("%d functions on the export path, no write to a package-level variable or long-lived field", len(pathFns)),
-			"the export path writes "+wr+": what one export puts there is still there at the next export (entries deleted from the stores in between are exported again) and in every other value built from the same variable")
+		checkExportBuildsFreshContainers(p, r, kp, mod)
 	}
 }
 
@@ -743,4 +731,33 @@ func checkPnftExportLoop(p *Prog, r *Report, kp func(string, string) string, pex
 		sc := c.Call.StaticCallee()
 		return sc != nil && InPkgs(resolveBound(sc), "x/pnft/keeper")
 	}, "export collects the tokens of every denom, with no conditional skip")
+}
+
+
+// checkExportBuildsFreshContainers (C08-D9; shared with C02: a writer removed from the stores must not come back through an
+// export that still carries it).
+func checkExportBuildsFreshContainers(p *Prog, r *Report, kp func(string, string) string, mod string) {
+	e := p.Func(Rel(mod), "ExportGenesis")
+	if e == nil {
+		return
+	}
+	reach := p.ReachFrom([]*ssa.Function{e}, func(f *ssa.Function) bool { return InModule(f) && !p.IsGenerated(f) })
+	// D9: the exported value is built from this call's own containers: nothing on the export path writes memory that outlives
+	// the call (a package-level variable, also through a struct copy that shares its maps; a field of a long-lived struct)
+	var pathFns []*ssa.Function
+	for _, f := range reach.Order {
+		if InModule(f) && f.Blocks != nil {
+			pathFns = append(pathFns, f)
+		}
+	}
+	wr := ""
+	for _, a := range LAccesses(p, pathFns) {
+		if a.Write && !isInitFunc(a.Fn) {
+			wr = a.Loc + " (" + describeAccess(p, a) + ")"
+			break
+		}
+	}
+	r.Check(wr == "", kp("STATE", mod+".ExportGenesis#builds-fresh-containers"), "an export is a function of the stores only: the export path writes no memory that outlives the call (entries of an earlier export, or of another module's, cannot leak into this one)", p.FnPos(e),
+		fmt.Sprintf("%d functions on the export path, no write to a package-level variable or long-lived field", len(pathFns)),
+		"the export path writes "+wr+": what one export puts there is still there at the next export (entries deleted from the stores in between are exported again) and in every other value built from the same variable")
 }
